@@ -3,6 +3,7 @@ package main
 // System-level properties: C12 (tables = SPDX source data), C13 (purity / concurrency), C14 (cost).
 
 import (
+	"runtime/metrics"
 	"bytes"
 	"encoding/json"
 	"fmt"
@@ -551,7 +552,104 @@ type measurement struct {
 	result string
 }
 
+// measure runs ONE call in a fresh child process and returns what it allocated.  The child carries a watchdog that
+// aborts the call as soon as the cumulative allocation passes `measureCap` (a change that makes a call allocate
+// gigabytes must not take the checking process, or the machine, down with it); the parent also enforces a timeout.
+var measureCap uint64 = 3 << 30
+
 func measure(fn int, e string, a []string) measurement {
+	exe, err := os.Executable()
+	if err != nil {
+		return measureInProcess(fn, e, a)
+	}
+	l := make([]string, len(a))
+	for i, x := range a {
+		l[i] = hx(x)
+	}
+	in, _ := json.Marshal(map[string]interface{}{"fn": fn, "expr": hx(e), "list": l, "cap": measureCap})
+	cmd := exec.Command(exe, "-measure")
+	cmd.Stdin = bytes.NewReader(in)
+	var out bytes.Buffer
+	cmd.Stdout = &out
+	cmd.Env = append(os.Environ(), "GOMEMLIMIT=6GiB")
+	done := make(chan error, 1)
+	t0 := time.Now()
+	if err := cmd.Start(); err != nil {
+		return measureInProcess(fn, e, a)
+	}
+	go func() { done <- cmd.Wait() }()
+	select {
+	case <-done:
+	case <-time.After(60 * time.Second):
+		cmd.Process.Kill()
+		<-done
+		return measurement{alloc: measureCap, dur: time.Since(t0), result: "TIMEOUT after 60 s (killed)"}
+	}
+	var r struct {
+		Alloc   uint64 `json:"alloc"`
+		Ns      int64  `json:"ns"`
+		Res     string `json:"res"`
+		Aborted bool   `json:"aborted"`
+	}
+	if err := json.Unmarshal(out.Bytes(), &r); err != nil {
+		// the child died (out of memory, fatal error): count it as having hit the cap
+		return measurement{alloc: measureCap, dur: time.Since(t0), result: "child died: " + err.Error()}
+	}
+	res := r.Res
+	if r.Aborted {
+		res = fmt.Sprintf("ABORTED by the watchdog after allocating %d bytes", r.Alloc)
+	}
+	return measurement{r.Alloc, time.Duration(r.Ns), res}
+}
+
+func allocatedBytes() uint64 {
+	s := []metrics.Sample{{Name: "/gc/heap/allocs:bytes"}}
+	metrics.Read(s)
+	if s[0].Value.Kind() == metrics.KindUint64 {
+		return s[0].Value.Uint64()
+	}
+	return 0
+}
+
+// measureChild: the child side of measure
+func measureChild() {
+	var c struct {
+		Fn   int      `json:"fn"`
+		Expr string   `json:"expr"`
+		List []string `json:"list"`
+		Cap  uint64   `json:"cap"`
+	}
+	raw, _ := io.ReadAll(os.Stdin)
+	if err := json.Unmarshal(raw, &c); err != nil {
+		os.Exit(2)
+	}
+	e := unhx(c.Expr)
+	a := make([]string, len(c.List))
+	for i, x := range c.List {
+		a[i] = unhx(x)
+	}
+	runtime.GC()
+	base := allocatedBytes()
+	t := time.Now()
+	emit := func(aborted bool, r string) {
+		b, _ := json.Marshal(map[string]interface{}{"alloc": allocatedBytes() - base, "ns": time.Since(t).Nanoseconds(), "res": r, "aborted": aborted})
+		os.Stdout.Write(b)
+	}
+	go func() {
+		for {
+			time.Sleep(time.Millisecond)
+			if allocatedBytes()-base > c.Cap {
+				emit(true, "")
+				os.Exit(0)
+			}
+		}
+	}()
+	m := measureInProcess(c.Fn, e, a)
+	b, _ := json.Marshal(map[string]interface{}{"alloc": m.alloc, "ns": m.dur.Nanoseconds(), "res": m.result, "aborted": false})
+	os.Stdout.Write(b)
+}
+
+func measureInProcess(fn int, e string, a []string) measurement {
 	var m0, m1 runtime.MemStats
 	runtime.GC()
 	runtime.ReadMemStats(&m0)
